@@ -31,6 +31,9 @@ type Options struct {
 	// LenExempt lists "Func.param" pairs without a length check, confirmed
 	// legitimate (not defects), with the reason.
 	LenExempt map[string]string
+	// OptionalExempt lists "Func.param" pairs whose uses are guarded by an
+	// equivalent condition the syntactic rule cannot see, with the reason.
+	OptionalExempt map[string]string
 	// Unchecked lists routines whose documentation states that arguments
 	// are not validated.
 	Unchecked map[string]string
@@ -728,6 +731,7 @@ func Run(cfg core.Config, scope core.Scope, opts Options) *core.Result {
 		"ARGS.order: no argument check (panic with an errors.go constant whose conditions read only scalars and slice lengths) is reachable from an operand write",
 		"ARGS.lencheck: every use of a slice parameter is dominated by a branch whose condition mentions its length",
 		"ARGS.query: in lwork == -1 mode the only stores are to work[0]/iwork[0] and the only calls are queries or scalar helpers",
+		"ARGS.optional: an operand validated only under a boolean flag (it may be nil otherwise) is used only under that flag",
 		"ARGS.complete: every int, flag and slice parameter occurs in the controlling condition of at least one argument check")
 	res.Configs = append(res.Configs, cfg.String())
 	pkgs, err := core.Load(cfg, scope.Patterns...)
@@ -763,6 +767,11 @@ func Run(cfg core.Config, scope core.Scope, opts Options) *core.Result {
 		for k := range opts.CompleteExempt {
 			if !usedExempt["c:"+k] {
 				res.Brokenf("stale exemption ARGS.complete %s: no longer needed or function gone", k)
+			}
+		}
+		for k := range opts.OptionalExempt {
+			if !usedExempt["o:"+k] {
+				res.Brokenf("stale exemption ARGS.optional %s", k)
 			}
 		}
 		for k := range opts.Unchecked {
@@ -941,6 +950,9 @@ func analyse(res *core.Result, pkg *packages.Package, fd *ast.FuncDecl, errs map
 		}
 	}
 
+	// ---- ARGS.optional
+	f.checkOptional(argChecks, uses, usedExempt)
+
 	// ---- ARGS.complete (weak form)
 	covered := map[types.Object]bool{}
 	for _, c := range argChecks {
@@ -1059,3 +1071,143 @@ func (f *fn) checkQuery(reach []bool) {
 }
 
 var _ = sort.Strings
+
+
+// checkOptional: a slice parameter whose every length check is guarded by
+// the same boolean conjunct G (e.g. `wantv && len(v) < ...`) is optional
+// under G: it may be nil when G is false, so every element access or
+// hand-over of it must itself be nested under a condition that has G as a
+// conjunct.
+func (f *fn) checkOptional(checks []*check, uses []useSite, usedExempt map[string]bool) {
+	conjuncts := func(e ast.Expr) []ast.Expr {
+		var out []ast.Expr
+		var walk func(e ast.Expr)
+		walk = func(e ast.Expr) {
+			switch x := e.(type) {
+			case *ast.ParenExpr:
+				walk(x.X)
+			case *ast.BinaryExpr:
+				if x.Op == token.LAND {
+					walk(x.X)
+					walk(x.Y)
+					return
+				}
+				out = append(out, e)
+			default:
+				out = append(out, e)
+			}
+		}
+		walk(e)
+		return out
+	}
+	isBoolFlag := func(e ast.Expr) bool {
+		switch x := e.(type) {
+		case *ast.Ident:
+			tv, ok := f.info.Types[e]
+			if !ok {
+				return false
+			}
+			b, ok := tv.Type.Underlying().(*types.Basic)
+			return ok && b.Kind() == types.Bool
+		case *ast.UnaryExpr:
+			if x.Op == token.NOT {
+				_, ok := x.X.(*ast.Ident)
+				return ok
+			}
+		}
+		return false
+	}
+	guards := map[types.Object]map[string]int{}
+	nchecks := map[types.Object]int{}
+	for _, c := range checks {
+		// the innermost condition is the one that names the parameter
+		if len(c.conds) == 0 {
+			continue
+		}
+		for _, cond := range c.conds {
+			for p := range f.slices {
+				if !f.mentionsLen(cond, p) {
+					continue
+				}
+				// top-level disjuncts: `ldu < 1, wantu && ldu < m` style lists are separate conds already
+				cj := conjuncts(cond)
+				var flags []string
+				lenConj := false
+				for _, x := range cj {
+					if f.mentionsLen(x, p) {
+						lenConj = true
+					} else if isBoolFlag(x) {
+						flags = append(flags, types.ExprString(x))
+					}
+				}
+				if !lenConj {
+					continue
+				}
+				nchecks[p]++
+				if guards[p] == nil {
+					guards[p] = map[string]int{}
+				}
+				for _, fl := range flags {
+					guards[p][fl]++
+				}
+			}
+		}
+	}
+	for p, gs := range guards {
+		var G string
+		for fl, n := range gs {
+			if n == nchecks[p] {
+				G = fl
+			}
+		}
+		if G == "" {
+			continue
+		}
+		f.res.Count("optional_operands", 1)
+		if _, ok := f.opts.OptionalExempt[f.short+"."+p.Name()]; ok {
+			usedExempt["o:"+f.short+"."+p.Name()] = true
+			f.res.Count("optional_exempt_by_table", 1)
+			continue
+		}
+		flagged := false
+		for _, u := range uses {
+			if u.param != p || flagged {
+				continue
+			}
+			f.res.Obligations++
+			f.res.Count("optional_operand_uses", 1)
+			ok := false
+			var child ast.Node = u.node
+			for par := f.par[u.node]; par != nil && !ok; child, par = par, f.par[par] {
+				switch s := par.(type) {
+				case *ast.IfStmt:
+					if child == s.Body {
+						for _, x := range conjuncts(s.Cond) {
+							if types.ExprString(x) == G {
+								ok = true
+							}
+						}
+					}
+				case *ast.CaseClause:
+					for _, ce := range s.List {
+						for _, x := range conjuncts(ce) {
+							if types.ExprString(x) == G {
+								ok = true
+							}
+						}
+					}
+				}
+			}
+			if ok {
+				continue
+			}
+			flagged = true
+			f.res.Add(core.Finding{
+				Rule: "ARGS.optional",
+				Key:  fmt.Sprintf("ARGS.optional|%s|%s", f.name, p.Name()),
+				Pos:  core.Pos(u.node.Pos()), Func: f.name,
+				Msg: fmt.Sprintf("operand %q is only validated when %s holds (it may be nil otherwise) but is used (%s) outside any branch on %s", p.Name(), G, u.what, G),
+			})
+		}
+	}
+}
